@@ -503,7 +503,7 @@ func c01Enqueue(r *core.Run, a *svcAnchors, e *lockEngine) {
 				if len(call.Call.Args) == 2 {
 					pushed = elemOfVarargs(call.Call.Args[1])
 				}
-				_, isNew := pushed.(*ssa.Alloc)
+				isNew := pushed != nil && isFreshObject(pushed, 0)
 				sameAsReg := true
 				for _, bb := range fn.Blocks {
 					for _, i2 := range bb.Instrs {
@@ -624,12 +624,14 @@ func c01Pop(r *core.Run, a *svcAnchors, e *lockEngine) {
 		read0    = 2
 		dropped  = 3
 	)
-	var headLoad ssa.Value
-	fl := &core.Flow{Fn: fn, Entry: core.StateSet(0).Add(unk)}
+	fl := &core.Flow{Fn: fn, Entry: core.StateSet(0).Add(unk), Inline: inlineHelpers(a, a.Drain)}
 	fl.Transfer = func(in ssa.Instruction, s int) core.StateSet {
 		if e.isRelease(in) {
-			if c, ok := in.(*ssa.Call); ok && c.Common().StaticCallee() == a.Drain {
-				return core.StateSet(0).Add(unk)
+			if c, ok := in.(*ssa.Call); ok {
+				if cal := c.Common().StaticCallee(); cal != nil && cal != a.Drain && cal.Pkg == fn.Pkg && e.lockOp(c) == "" {
+					// a helper that may release is analysed in line (its own Unlock/Wait reset the state)
+					return core.StateSet(0).Add(s)
+				}
 			}
 			return core.StateSet(0).Add(unk)
 		}
@@ -663,36 +665,53 @@ func c01Pop(r *core.Run, a *svcAnchors, e *lockEngine) {
 		return s, true
 	}
 	res := fl.Run()
-	for _, b := range fn.Blocks {
-		for _, in := range b.Instrs {
-			if x, ok := in.(*ssa.IndexAddr); ok {
-				if f, ok := core.LoadedField(x.X); ok && f == a.WorkQueue {
-					st := res.Before[x]
-					i, isC := core.ConstInt(x.Index)
-					r.Check(isC && i == 0 && st.Only(nonEmpty), "A3", fname, "read-head("+a.WorkQueue.String()+"[0])", p.InstrPos(x),
-						"head read right after 'non-empty' was observed, no release in between", "the work queue is indexed without a fresh non-empty check in the same critical section (state "+fmt.Sprint(st.List())+")")
-					if refs := x.Referrers(); refs != nil {
-						for _, rf := range *refs {
-							if u, ok := rf.(*ssa.UnOp); ok {
-								headLoad = u
-							}
-						}
+	isHeadLoad := func(v ssa.Value) bool {
+		u, ok := v.(*ssa.UnOp)
+		if !ok {
+			return false
+		}
+		ia, ok := u.X.(*ssa.IndexAddr)
+		if !ok {
+			return false
+		}
+		f, ok := core.LoadedField(ia.X)
+		i, isC := core.ConstInt(ia.Index)
+		return ok && f == a.WorkQueue && isC && i == 0
+	}
+	for _, f2 := range p.Scope(fn) {
+		if f2.Parent() != nil {
+			continue
+		}
+		for _, b := range f2.Blocks {
+			for _, in := range b.Instrs {
+				if x, ok := in.(*ssa.IndexAddr); ok {
+					if f, ok := core.LoadedField(x.X); ok && f == a.WorkQueue {
+						st := res.Before[x]
+						i, isC := core.ConstInt(x.Index)
+						r.Check(isC && i == 0 && st.Only(nonEmpty), "A3", fname, "read-head("+a.WorkQueue.String()+"[0])", p.InstrPos(x),
+							"head read right after 'non-empty' was observed, no release in between", "the work queue is indexed without a fresh non-empty check in the same critical section (state "+fmt.Sprint(st.List())+")")
 					}
 				}
-			}
-			if x, ok := in.(*ssa.Store); ok {
-				if f, ok := core.FieldOf(x.Addr); ok && f == a.WorkQueue {
-					st := res.Before[x]
-					r.Check(st.Only(read0), "A3", fname, "drop-head-after-read:"+storeShape(x.Val, a), p.InstrPos(x),
-						"the store that drops the head follows the head read in the same critical section", "the work queue is rewritten without the head having been read in this critical section (state "+fmt.Sprint(st.List())+")")
+				if x, ok := in.(*ssa.Store); ok {
+					if f, ok := core.FieldOf(x.Addr); ok && f == a.WorkQueue {
+						st := res.Before[x]
+						r.Check(st.Only(read0), "A3", fname, "drop-head-after-read:"+storeShape(x.Val, a), p.InstrPos(x),
+							"the store that drops the head follows the head read in the same critical section", "the work queue is rewritten without the head having been read in this critical section (state "+fmt.Sprint(st.List())+")")
+					}
 				}
-			}
-			if c, ok := in.(*ssa.Call); ok && c.Common().StaticCallee() == a.Drain {
-				st := res.Before[c]
-				lk := e.stateAt(c)
-				arg := c.Common().Args[0]
-				r.Check(st.Only(dropped) && lk.Only(lkHeld) && headLoad != nil && arg == headLoad, "A3", fname, "drain(popped-head)", p.InstrPos(c),
-					"drain is called on the element read at [0], after it was dropped from the queue, lock Held", fmt.Sprintf("drain call not tied to an atomic pop: popState=%v lock=%s argIsHead=%v", st.List(), lkStr(lk), arg == headLoad))
+				if c, ok := in.(*ssa.Call); ok && c.Common().StaticCallee() == a.Drain {
+					st := res.Before[c]
+					lk := e.stateAt(c)
+					argIsHead := true
+					lvs := valueLeaves(c.Common().Args[0], nil, 0)
+					for _, lf := range lvs {
+						if !isHeadLoad(lf.V) {
+							argIsHead = false
+						}
+					}
+					r.Check(st.Only(dropped) && lk.Only(lkHeld) && len(lvs) > 0 && argIsHead, "A3", fname, "drain(popped-head)", p.InstrPos(c),
+						"drain is called on the element read at [0], after it was dropped from the queue, lock Held", fmt.Sprintf("drain call not tied to an atomic pop: popState=%v lock=%s argIsHead=%v", st.List(), lkStr(lk), argIsHead))
+				}
 			}
 		}
 	}
@@ -1151,4 +1170,45 @@ func c01Restart(r *core.Run, a *svcAnchors, root []*ssa.Function) {
 		}
 	}
 	r.Check(fresh, "H1", core.FuncName(a.Serve), "fresh-registry-before-workers", p.Pos(a.Serve.Pos()), "every run starts with a new, empty group registry created before the first worker", "the group registry is not unconditionally re-created before the workers start: entries of the previous run would survive and their groups would never be scheduled again")
+}
+
+// isFreshObject: v is a newly allocated object: an Alloc, or the result of a
+// module function all of whose returns are newly allocated objects (a
+// constructor helper such as newWork).
+func isFreshObject(v ssa.Value, depth int) bool {
+	if depth > 3 {
+		return false
+	}
+	switch x := v.(type) {
+	case *ssa.Alloc:
+		return true
+	case *ssa.Call:
+		cal := x.Common().StaticCallee()
+		if cal == nil || len(cal.Blocks) == 0 {
+			return false
+		}
+		n := 0
+		for _, ret := range core.Returns(cal) {
+			if len(ret.Results) != 1 || !isFreshObject(ret.Results[0], depth+1) {
+				return false
+			}
+			n++
+		}
+		return n > 0
+	}
+	return false
+}
+
+// inlineNeutral returns an Inline policy for typestate flows of the queue
+// rules: same-package helpers are analysed in line, except the drain function
+// and functions started elsewhere.
+func inlineHelpers(a *svcAnchors, except ...*ssa.Function) func(*ssa.Function) bool {
+	return func(cal *ssa.Function) bool {
+		for _, x := range except {
+			if cal == x {
+				return false
+			}
+		}
+		return cal.Pkg == a.Enqueue.Pkg
+	}
 }
